@@ -19,13 +19,16 @@ package collections
 //@ type TTLMap
 //@   immutable capacity mutex OnExpire expiryTimes
 //@   guarded_by mutex: elements
-//@   guards mutex: PriorityQueue.qin PriorityQueue.qlen PQItem.Priority PQItem.Value PQItem.index
+//@   protects mutex: expiryTimes
+//@   guards mutex: PriorityQueue.qin PriorityQueue.qlen PriorityQueue.qtop PQItem.Priority PQItem.Value PQItem.index
 //@   ghost vdom map[string]bool
 //@   ghost vtag map[string]int
 //@   ghost vval map[string]int
 //@   ghost vexp map[string]int
 //@   ghost vlen int
-//@   lockinv mutex (m): repOK(m) && coupled(m)
+//@   lockinv mutex (m): repMapSide(m)
+//@   lockinv mutex (m): repQueueSide(m)
+//@   lockinv mutex (m): coupled(m)
 
 //@ type mapElement
 //@   immutable key heapEl
@@ -37,6 +40,7 @@ package collections
 //@   immutable impl
 //@   ghost qin map[ref]bool
 //@   ghost qlen int
+//@   ghost qtop ref
 
 //@ type PQItem
 //@   extsync
@@ -46,9 +50,10 @@ package collections
 //@   mutators Swap Push Pop
 
 //@ pred me(it *PQItem) = asref(payload(it.Value), "*mapElement")
-//@ pred repOK(m *TTLMap) = m.elements != nil && m.expiryTimes != nil && m.capacity >= 0 && len(m.elements) == m.expiryTimes.qlen
+//@ pred repMapSide(m *TTLMap) = m.elements != nil && m.expiryTimes != nil && m.capacity >= 0 && len(m.elements) == m.expiryTimes.qlen && m.expiryTimes.qlen >= 0
 //@   && (forall k string :: in(k, m.elements) ==> m.elements[k] != nil && allocated(m.elements[k]) && m.elements[k].key == k && m.elements[k].heapEl != nil && allocated(m.elements[k].heapEl) && m.expiryTimes.qin[m.elements[k].heapEl] && me(m.elements[k].heapEl) == m.elements[k])
-//@   && (forall it *PQItem :: m.expiryTimes.qin[it] ==> it != nil && tagof(it.Value) == typeid("*mapElement") && me(it) != nil && in(me(it).key, m.elements) && m.elements[me(it).key] == me(it) && me(it).heapEl == it)
+//@ pred repQueueSide(m *TTLMap) = (forall it *PQItem :: m.expiryTimes.qin[it] ==> it != nil && tagof(it.Value) == typeid("*mapElement") && me(it) != nil && in(me(it).key, m.elements) && m.elements[me(it).key] == me(it) && me(it).heapEl == it)
+//@ pred repOK(m *TTLMap) = repMapSide(m) && repQueueSide(m)
 //@ pred coupled(m *TTLMap) = m.vlen == len(m.elements) && (forall k string :: m.vdom[k] == in(k, m.elements) && (in(k, m.elements) ==> m.vexp[k] == m.elements[k].heapEl.Priority && m.vtag[k] == tagof(m.elements[k].value) && m.vval[k] == payload(m.elements[k].value)))
 //@ pred viewIsAbstraction(m *TTLMap) = m.vlen == len(m.elements) && (forall k string :: m.vdom[k] == in(k, m.elements) && m.vexp[k] == ite(in(k, m.elements), m.elements[k].heapEl.Priority, old(m.vexp[k])) && m.vtag[k] == ite(in(k, m.elements), tagof(m.elements[k].value), old(m.vtag[k])) && m.vval[k] == ite(in(k, m.elements), payload(m.elements[k].value), old(m.vval[k])))
 //@ pred nowsec() = lastclock / 1000000000
@@ -69,7 +74,7 @@ package collections
 //@   trusted
 //@   nopanic
 //@   requires p != nil && el != nil && !p.qin[el]
-//@   modifies p.qin[el], p.qlen, PQItem.index
+//@   modifies p.qin[el], p.qlen, p.qtop, PQItem.index
 //@   ensures p.qin[el] && p.qlen == old(p.qlen) + 1
 
 //@ func (*PriorityQueue).Pop
@@ -77,8 +82,8 @@ package collections
 //@   trusted
 //@   nopanic
 //@   requires p != nil && p.qlen > 0
-//@   modifies p.qin, p.qlen, PQItem.index
-//@   ensures result != nil && old(p.qin[result]) && !p.qin[result] && p.qlen == old(p.qlen) - 1
+//@   modifies p.qin, p.qlen, p.qtop, PQItem.index
+//@   ensures result != nil && result == old(p.qtop) && old(p.qin[result]) && !p.qin[result] && p.qlen == old(p.qlen) - 1
 //@   ensures minimum: forall it *PQItem :: old(p.qin[it]) ==> result.Priority <= it.Priority
 //@   ensures others_stay: forall it *PQItem :: it != result ==> p.qin[it] == old(p.qin[it])
 
@@ -87,7 +92,7 @@ package collections
 //@   trusted
 //@   nopanic
 //@   requires p != nil && p.qlen > 0
-//@   ensures result != nil && p.qin[result]
+//@   ensures result != nil && result == p.qtop && p.qin[result]
 //@   ensures minimum: forall it *PQItem :: p.qin[it] ==> result.Priority <= it.Priority
 
 //@ func (*PriorityQueue).Update
@@ -95,7 +100,7 @@ package collections
 //@   trusted
 //@   nopanic
 //@   requires p != nil && el != nil && p.qin[el]
-//@   modifies el.Priority, PQItem.index
+//@   modifies el.Priority, p.qtop, PQItem.index
 //@   ensures el.Priority == priority
 
 //@ func (*PriorityQueue).Remove
@@ -103,8 +108,8 @@ package collections
 //@   trusted
 //@   nopanic
 //@   requires p != nil && el != nil && p.qin[el]
-//@   modifies p.qin[el], p.qlen, PQItem.index
-//@   ensures !p.qin[el] && p.qlen == old(p.qlen) - 1
+//@   modifies p.qin[el], p.qlen, p.qtop, PQItem.index
+//@   ensures !p.qin[el] && p.qlen == old(p.qlen) - 1 && p.qlen >= 0
 
 // ---- TTLMap ----
 
@@ -136,33 +141,33 @@ package collections
 //@   holds m.mutex
 //@   readsclock
 //@   requires m != nil && repOK(m) && iterations == 1
-//@   modifies mapof(m.elements), m.expiryTimes.qin, m.expiryTimes.qlen, PQItem.index
-//@   ensures repOK(m) && 0 <= result && result <= 1
+//@   modifies mapof(m.elements), m.expiryTimes.qin, m.expiryTimes.qlen, m.expiryTimes.qtop, PQItem.index
+//@   ensures repOK(m) && 0 <= result && result <= 1 && len(m.elements) == old(len(m.elements)) - result
 //@   ensures nothing_removed: result == 0 ==> (forall k string :: entrySame(m, k)) && (old(len(m.elements)) == 0 || (forall k string :: in(k, m.elements) ==> m.elements[k].heapEl.Priority > lastclock / 1000000000))
 //@   ensures removed_the_minimum: result == 1 ==> (exists v string :: old(in(v, m.elements)) && !in(v, m.elements) && (forall k string :: old(in(k, m.elements)) ==> old(m.elements[v].heapEl.Priority) <= old(m.elements[k].heapEl.Priority)) && (forall k string :: k != v ==> entrySame(m, k)))
-//@   loop 0 invariant 0 <= i && i <= 1 && removed == i && repOK(m)
-//@   loop 0 invariant i == 0 ==> (forall k string :: entrySame(m, k)) && len(m.elements) == old(len(m.elements))
-//@   loop 0 invariant i == 1 ==> (exists v string :: old(in(v, m.elements)) && !in(v, m.elements) && (forall k string :: old(in(k, m.elements)) ==> old(m.elements[v].heapEl.Priority) <= old(m.elements[k].heapEl.Priority)) && (forall k string :: k != v ==> entrySame(m, k)))
+//@   loop 1 invariant 0 <= i && i <= 1 && removed == i && repOK(m) && len(m.elements) == old(len(m.elements)) - i
+//@   loop 1 invariant i == 0 ==> (forall k string :: entrySame(m, k)) && len(m.elements) == old(len(m.elements))
+//@   loop 1 invariant i == 1 ==> (exists v string :: old(in(v, m.elements)) && !in(v, m.elements) && (forall k string :: old(in(k, m.elements)) ==> old(m.elements[v].heapEl.Priority) <= old(m.elements[k].heapEl.Priority)) && (forall k string :: k != v ==> entrySame(m, k)))
 
 //@ func (*TTLMap).RemoveLastUsed
 //@   props C09 C14
 //@   holds m.mutex
 //@   requires m != nil && repOK(m) && iterations == 1
-//@   modifies mapof(m.elements), m.expiryTimes.qin, m.expiryTimes.qlen, PQItem.index
-//@   ensures repOK(m)
+//@   modifies mapof(m.elements), m.expiryTimes.qin, m.expiryTimes.qlen, m.expiryTimes.qtop, PQItem.index
+//@   ensures repOK(m) && len(m.elements) == old(len(m.elements)) - ite(old(len(m.elements)) > 0, 1, 0)
 //@   ensures empty_map: old(len(m.elements)) == 0 ==> (forall k string :: entrySame(m, k))
 //@   ensures removed_the_minimum: old(len(m.elements)) > 0 ==> (exists v string :: old(in(v, m.elements)) && !in(v, m.elements) && (forall k string :: old(in(k, m.elements)) ==> old(m.elements[v].heapEl.Priority) <= old(m.elements[k].heapEl.Priority)) && (forall k string :: k != v ==> entrySame(m, k)))
-//@   loop 0 invariant 0 <= i && i <= 1 && repOK(m)
-//@   loop 0 invariant i == 0 ==> (forall k string :: entrySame(m, k)) && len(m.elements) == old(len(m.elements))
-//@   loop 0 invariant i == 1 ==> old(len(m.elements)) > 0 && (exists v string :: old(in(v, m.elements)) && !in(v, m.elements) && (forall k string :: old(in(k, m.elements)) ==> old(m.elements[v].heapEl.Priority) <= old(m.elements[k].heapEl.Priority)) && (forall k string :: k != v ==> entrySame(m, k)))
+//@   loop 1 invariant 0 <= i && i <= 1 && repOK(m) && len(m.elements) == old(len(m.elements)) - i
+//@   loop 1 invariant i == 0 ==> (forall k string :: entrySame(m, k)) && len(m.elements) == old(len(m.elements))
+//@   loop 1 invariant i == 1 ==> old(len(m.elements)) > 0 && (exists v string :: old(in(v, m.elements)) && !in(v, m.elements) && (forall k string :: old(in(k, m.elements)) ==> old(m.elements[v].heapEl.Priority) <= old(m.elements[k].heapEl.Priority)) && (forall k string :: k != v ==> entrySame(m, k)))
 
 //@ func (*TTLMap).freeSpace
 //@   props C14
 //@   holds m.mutex
 //@   readsclock
 //@   requires m != nil && repOK(m) && count == 1
-//@   modifies mapof(m.elements), m.expiryTimes.qin, m.expiryTimes.qlen, PQItem.index
-//@   ensures repOK(m)
+//@   modifies mapof(m.elements), m.expiryTimes.qin, m.expiryTimes.qlen, m.expiryTimes.qtop, PQItem.index
+//@   ensures repOK(m) && len(m.elements) == old(len(m.elements)) - ite(old(len(m.elements)) > 0, 1, 0)
 //@   ensures empty_map: old(len(m.elements)) == 0 ==> (forall k string :: entrySame(m, k))
 //@   ensures removed_the_minimum: old(len(m.elements)) > 0 ==> (exists v string :: old(in(v, m.elements)) && !in(v, m.elements) && (forall k string :: old(in(k, m.elements)) ==> old(m.elements[v].heapEl.Priority) <= old(m.elements[k].heapEl.Priority)) && (forall k string :: k != v ==> entrySame(m, k)))
 
@@ -171,9 +176,10 @@ package collections
 //@   holds m.mutex
 //@   readsclock
 //@   requires m != nil && repOK(m)
-//@   modifies mapof(m.elements), m.expiryTimes.qin, m.expiryTimes.qlen, PQItem.index, PQItem.Priority, mapElement.value
+//@   modifies mapof(m.elements), m.expiryTimes.qin, m.expiryTimes.qlen, m.expiryTimes.qtop, PQItem.index, PQItem.Priority, mapElement.value
 //@   ensures result == nil && repOK(m)
 //@   ensures stored: in(key, m.elements) && m.elements[key].value == value && m.elements[key].heapEl.Priority == expiryTime
+//@   ensures length: len(m.elements) == old(len(m.elements)) + ite(old(in(key, m.elements)) || (old(len(m.elements)) >= m.capacity && old(len(m.elements)) > 0), 0, 1)
 //@   ensures within_capacity: old(in(key, m.elements)) || old(len(m.elements)) < m.capacity ==> (forall k string :: k != key ==> entrySame(m, k))
 //@   ensures evicts_the_minimum: !old(in(key, m.elements)) && old(len(m.elements)) >= m.capacity && old(len(m.elements)) > 0 ==> (exists v string :: v != key && old(in(v, m.elements)) && !in(v, m.elements) && (forall k string :: old(in(k, m.elements)) ==> old(m.elements[v].heapEl.Priority) <= old(m.elements[k].heapEl.Priority)) && (forall k string :: k != key && k != v ==> entrySame(m, k)))
 //@   ensures evicts_nothing_when_empty: !old(in(key, m.elements)) && old(len(m.elements)) == 0 ==> (forall k string :: k != key ==> entrySame(m, k))
@@ -191,7 +197,7 @@ package collections
 //@   atomic m.mutex
 //@   readsclock
 //@   requires m != nil && m.OnExpire == nil && mapEl != nil
-//@   modifies m.vdom[mapEl.key], m.vlen, mapof(m.elements), m.expiryTimes.qin, m.expiryTimes.qlen, PQItem.index
+//@   modifies m.vdom[mapEl.key], m.vlen, mapof(m.elements), m.expiryTimes.qin, m.expiryTimes.qlen, m.expiryTimes.qtop, PQItem.index
 //@   ghost_ensures m.vdom[old(mapEl.key)] == in(old(mapEl.key), m.elements) && m.vlen == len(m.elements)
 //@   ensures removed_iff_expired: m.vdom[mapEl.key] == (old(m.vdom[mapEl.key]) && old(m.vexp[mapEl.key]) > lastclock / 1000000000)
 //@   ensures m.vlen == old(m.vlen) - ite(old(m.vdom[mapEl.key]) && !m.vdom[mapEl.key], 1, 0)
@@ -206,7 +212,7 @@ package collections
 //@   props C03 C13 C14
 //@   readsclock
 //@   requires m != nil && m.OnExpire == nil
-//@   modifies m.vdom[key], m.vlen, mapof(m.elements), m.expiryTimes.qin, m.expiryTimes.qlen, PQItem.index
+//@   modifies m.vdom[key], m.vlen, mapof(m.elements), m.expiryTimes.qin, m.expiryTimes.qlen, m.expiryTimes.qtop, PQItem.index
 //@   ensures hit_iff_live: result1 <==> (old(m.vdom[key]) && old(m.vexp[key]) > lastclock / 1000000000)
 //@   ensures hit_value: result1 ==> tagof(result0) == m.vtag[key] && payload(result0) == m.vval[key] && m.vdom[key] && m.vlen == old(m.vlen)
 //@   ensures miss_forgets_only_this_key: !result1 ==> !m.vdom[key] && m.vlen == old(m.vlen) - ite(old(m.vdom[key]), 1, 0)
@@ -216,11 +222,31 @@ package collections
 //@   atomic m.mutex
 //@   readsclock
 //@   requires m != nil
-//@   modifies TTLMap.vdom, TTLMap.vtag, TTLMap.vval, TTLMap.vexp, m.vlen, mapof(m.elements), m.expiryTimes.qin, m.expiryTimes.qlen, PQItem.index, PQItem.Priority, mapElement.value
+//@   modifies TTLMap.vdom, TTLMap.vtag, TTLMap.vval, TTLMap.vexp, m.vlen, mapof(m.elements), m.expiryTimes.qin, m.expiryTimes.qlen, m.expiryTimes.qtop, PQItem.index, PQItem.Priority, mapElement.value
 //@   ghost_ensures viewIsAbstraction(m)
 //@   ghost_ensures forall o *TTLMap, k string :: o != m ==> o.vdom[k] == old(o.vdom[k]) && o.vtag[k] == old(o.vtag[k]) && o.vval[k] == old(o.vval[k]) && o.vexp[k] == old(o.vexp[k])
 //@   ensures bad_ttl: ttlSeconds <= 0 ==> result != nil && (forall k string :: viewSame(m, k))
-//@   ensures stored: ttlSeconds > 0 ==> result == nil && m.vdom[key] && m.vtag[key] == tagof(value) && m.vval[key] == payload(value) && m.vexp[key] == (lastclock + ttlSeconds * 1000000000) / 1000000000
+//@   ensures stored: ttlSeconds > 0 ==> result == nil && m.vdom[key] && m.vtag[key] == tagof(value) && m.vval[key] == payload(value)
+//@   ensures expiry_is_ttl_after_the_call: ttlSeconds > 0 ==> m.vexp[key] >= (old(lastclock) + ttlSeconds * 1000000000) / 1000000000 && m.vexp[key] <= (lastclock + ttlSeconds * 1000000000) / 1000000000
 //@   ensures no_eviction_within_capacity: ttlSeconds > 0 && (old(m.vdom[key]) || old(m.vlen) < m.capacity) ==> (forall k string :: k != key ==> viewSame(m, k))
-//@   ensures eviction_takes_nearest_expiry: ttlSeconds > 0 && !old(m.vdom[key]) && old(m.vlen) >= m.capacity ==> (exists v string :: v != key && (old(m.vdom[v]) || old(m.vlen) == 0) && !m.vdom[v] && (forall k string :: old(m.vdom[k]) ==> old(m.vexp[v]) <= old(m.vexp[k])) && (forall k string :: k != key && k != v ==> viewSame(m, k)))
+//@   ensures eviction_takes_nearest_expiry: ttlSeconds > 0 && !old(m.vdom[key]) && old(m.vlen) >= m.capacity && old(m.vlen) > 0 ==> (exists v string :: v != key && old(m.vdom[v]) && !m.vdom[v] && (forall k string :: old(m.vdom[k]) ==> old(m.vexp[v]) <= old(m.vexp[k])) && (forall k string :: k != key && k != v ==> viewSame(m, k)))
+//@   ensures nothing_to_evict: ttlSeconds > 0 && !old(m.vdom[key]) && old(m.vlen) == 0 ==> (forall k string :: k != key ==> viewSame(m, k))
+//@   ensures length: ttlSeconds > 0 ==> m.vlen == old(m.vlen) + ite(old(m.vdom[key]) || (old(m.vlen) >= m.capacity && old(m.vlen) > 0), 0, 1)
 //@   ensures other_maps_untouched: forall o *TTLMap, k string :: o != m ==> o.vdom[k] == old(o.vdom[k]) && o.vtag[k] == old(o.vtag[k]) && o.vval[k] == old(o.vval[k]) && o.vexp[k] == old(o.vexp[k])
+
+// Increment / GetInt are not used by oxy; they are kept under contract so that they preserve the lock invariant.
+//@ func (*TTLMap).Increment
+//@   props C09 C14
+//@   atomic m.mutex
+//@   readsclock
+//@   requires m != nil
+//@   modifies TTLMap.vdom, TTLMap.vtag, TTLMap.vval, TTLMap.vexp, m.vlen, mapof(m.elements), m.expiryTimes.qin, m.expiryTimes.qlen, m.expiryTimes.qtop, PQItem.index, PQItem.Priority, mapElement.value
+//@   ghost_ensures viewIsAbstraction(m)
+//@   ghost_ensures forall o *TTLMap, k string :: o != m ==> o.vdom[k] == old(o.vdom[k]) && o.vtag[k] == old(o.vtag[k]) && o.vval[k] == old(o.vval[k]) && o.vexp[k] == old(o.vexp[k])
+//@   ensures other_maps_untouched: forall o *TTLMap, k string :: o != m ==> o.vdom[k] == old(o.vdom[k]) && o.vtag[k] == old(o.vtag[k]) && o.vval[k] == old(o.vval[k]) && o.vexp[k] == old(o.vexp[k])
+
+//@ func (*TTLMap).GetInt
+//@   props C09 C14
+//@   readsclock
+//@   requires m != nil && m.OnExpire == nil
+//@   modifies m.vdom[key], m.vlen, mapof(m.elements), m.expiryTimes.qin, m.expiryTimes.qlen, m.expiryTimes.qtop, PQItem.index
